@@ -1,5 +1,5 @@
 (* Proofs for C04: the cached run of model/Cache.v simulates the uncached run. *)
-From Cam Require Import Outcome Bytes Mem BitField RegCodec Cache CacheSpec.
+From Cam Require Import Outcome Bytes Mem BitField RegCodec Cache CacheSpec P_C01.
 
 (* ---- lists and device memory ------------------------------------------------------------- *)
 
@@ -778,6 +778,47 @@ Proof.
     rewrite c_find_filter_none
       by (apply c_find_filter_none; now apply (find_none_uncacheable y s n r a)).
     unfold m_read_and_cache. rewrite cdev_read_peek. sset. now rewrite Hpk.
+Qed.
+
+Lemma sh_unit_ok_inv (o : outcome unit) : sh_unit o = sh_unit (Ok tt) -> o = Ok tt.
+Proof. destruct o as [[]|e|]; cbn; intros H; try reflexivity; discriminate H. Qed.
+
+Lemma Inv_inval_by y n s : Inv y s -> Inv y (set_cache s (c_inval_by y n (c_cache s))).
+Proof. intros H. unfold Inv. cbn [set_cache c_dev c_cache]. unfold c_inval_by. now apply Forall_filter. Qed.
+
+(* IntReg: set_value x; value  returns the decoding of the bytes of x, in every caching mode *)
+Lemma own_write_intreg y n r x s :
+  Inv y s -> node_at y n = Some (NReg r) -> g_kind r = 0 ->
+  fst (step true cur y (OpSet n [x]) s) = sh_unit (Ok tt) ->
+  exists buf, bytes_from_int x (g_len r) (g_endian r) (g_sign r) = Ok buf /\
+    fst (step true cur y (OpValue n) (snd (step true cur y (OpSet n [x]) s))) =
+    sh_z (int_from_slice buf (g_endian r) (g_sign r)).
+Proof.
+  intros HI Hn Hk. cbn [step]. rewrite Hn, Hk. cbn [Z.eqb orb].
+  unfold fuel_of. cbn [m_iset m_ival]. rewrite Hn, Hk. cbn [Z.eqb].
+  unfold pr_unit, pr_z, m_intreg_set, m_intreg_value. rewrite bind_inval_by.
+  unfold mbind at 1 2 3. unfold mlift at 1 2 3.
+  destruct (bytes_from_int x (g_len r) (g_endian r) (g_sign r)) as [buf|e|] eqn:Hb;
+    cbn [fst snd]; try (intros H; apply sh_unit_ok_inv in H; discriminate H).
+  destruct (m_write_and_cache true cur y n r buf _) as [o s1] eqn:Hw. cbn [fst snd].
+  intros H. apply sh_unit_ok_inv in H. subst o.
+  exists buf. split; auto.
+  pose proof (own_write_visible y n r buf _ s1 (Inv_inval_by y n s HI) Hn Hw) as Hv.
+  unfold mbind. destruct (m_cached_bytes true n r s1) as [o2 s2]. cbn [fst] in Hv. subst o2.
+  unfold mlift. reflexivity.
+Qed.
+
+(* ... and so the value written: set_value v; value = v for every v the register can hold *)
+Lemma own_write_intreg_value y n r x s :
+  Inv y s -> node_at y n = Some (NReg r) -> g_kind r = 0 ->
+  supported_int_len (g_len r) = true -> int_in_range (g_len r) (g_sign r) x ->
+  fst (step true cur y (OpSet n [x]) s) = sh_unit (Ok tt) ->
+  fst (step true cur y (OpValue n) (snd (step true cur y (OpSet n [x]) s))) = sh_z (Ok x).
+Proof.
+  intros HI Hn Hk Hs Hr Hok.
+  destruct (own_write_intreg y n r x s HI Hn Hk Hok) as [buf [Hb Hv]].
+  rewrite Hv. rewrite bytes_from_int_image in Hb by auto. apply Ok_inj in Hb. subst buf.
+  now rewrite int_roundtrip.
 Qed.
 
 (* ---- a decidable sufficient condition for Declared ----------------------------------------------------- *)
